@@ -73,6 +73,12 @@ NEEDS = {
  'C14d': ('CropAndPad._get_pad_value treats only a tuple of two as an interval', 'CropAndPad(pad_cval=(a, b)) after a JSON / YAML round trip (tuple becomes list)'),
  'C16d': ('SetPixelSpacing.apply_to_dicom writes (space_x, space_y) into the (row, column) spacing', 'SetPixelSpacing with space_x != space_y'),
  'C19d': ('RandomCropNearBBox pairs box axis i with max_part_shift[i] (x with the height fraction)', 'RandomCropNearBBox with a max_part_shift tuple whose first two entries differ'),
+ 'C04d': ('Compose._check_data_post_transform unpacks the shape as (cols, rows, slices)', 'min_width / min_height thresholds on a frame with rows != cols, check_each_transform=True'),
+ 'C09d': ('GaussNoise(apply_to_channel_idx) draws its noise from np.random.normal', 'GaussNoise(apply_to_channel_idx=k) on an H x W x D x C image, numpy global state differing between runs'),
+ 'C12d': ('PixelDropout.apply_to_mask squeezes every singleton axis of the drop mask', 'PixelDropout(mask_drop_value set) on an HWDC image with an HWD mask and a width or depth of 1'),
+ 'C15d': ('BasicTransform.__init__ stores p = 1.0 when always_apply is set', 'OneOf / SomeOf with a child built with always_apply=True and p != 1 (selection weights)'),
+ 'C18d': ('median_blur no longer forwards cval', 'MedianBlur(mode="constant", cval != 0): voxels near a face'),
+ 'C20d': ('CoarseDropout.__init__ defaults min_depth to max_height', 'CoarseDropout with only the max sizes given and max_depth > max_height'),
  'C20b': ('GridDropout loops k over range(height // unit_depth + 1)', 'GridDropout on a volume whose depth exceeds its height by a grid unit or more'),
 }
 detected = json.load(open(os.path.join(V, 'seeded', 'detected.json'))) if os.path.exists(os.path.join(V, 'seeded', 'detected.json')) else {}
